@@ -239,14 +239,10 @@ def rule_X3(ctx: Ctx) -> None:
         env = {"show_endpoints": se, "show_solution": ss, "AsciiChars": Obj("AsciiChars", chars)}
         got = None
         try:
-            for st in a.node.body:
-                if isinstance(st, (ast.Assign, ast.AnnAssign)) and X.U(st.targets[0] if isinstance(st, ast.Assign) else st.target) == "chars_replace":
-                    env["chars_replace"] = ev.ev(st.value, env)
-                elif isinstance(st, ast.If) and "chars_replace" in X.U(st):
-                    if ev.ev(st.test, env):
-                        for s2 in st.body:
-                            if isinstance(s2, ast.AugAssign) and X.U(s2.target) == "chars_replace":
-                                env["chars_replace"] = env["chars_replace"] + ev.ev(s2.value, env)
+            # the statements that build the replacement collection, up to the overlay loop (folded, not run: finite domain of the two flags)
+            loop_i = next((i for i, st in enumerate(a.node.body) if isinstance(st, ast.For)), len(a.node.body))
+            frag = [st for st in a.node.body[:loop_i] if "chars_replace" in X.U(st)]
+            ev._exec(frag, env)
             got = set(env.get("chars_replace", ()))
         except Unknown:
             got = None
